@@ -135,7 +135,7 @@ def run_exctab(ctx, lib=None, drv=None, tables=None):
                 if want is not None:
                     found += 1
                 if g != w and c != "<missing>":
-                    kind = "found-below-first-block" if want is None else (
+                    kind = "found-outside-every-block" if want is None else (
                         "not-found" if g == "-" else "wrong-entry")
                     ctx.violation("exctab_search:" + kind,
                                   "exctab_search returns %s for ip=%d, the block containing it is %s "
